@@ -414,7 +414,7 @@ Definition marshal_bigint (g : gval) : mres :=
       | UInt => if MaxInt64 <? v then Err else some_bytes (enc_bigint v)
       | _ => some_bytes (enc_bigint v)
       end
-  | GBig n => some_bytes (enc_bigint2c n)
+  | GBig n => if (n <? - 2 ^ 63) || (MaxInt64 <? n) then Err else some_bytes (enc_bigint n)   (* big.Int.IsInt64 *)
   | GStr false s =>
       match parse_int s 64 with Some n => some_bytes (enc_bigint n) | None => Err end
   | GNil => Ok None
@@ -442,6 +442,7 @@ Definition marshal_varint (g : gval) : mres :=
   | GInt U64 false v =>
       if MaxInt64 <? v then some_bytes (varint_trim (0 :: enc_bigint v))
       else some_bytes (varint_trim (enc_bigint v))
+  | GBig n => some_bytes (varint_trim (enc_bigint2c n))
   | _ => match marshal_bigint g with
          | Ok (Some b) => some_bytes (varint_trim b)
          | r => r
@@ -494,25 +495,27 @@ Definition marshal_timestamp (g : gval) : mres :=
   | _ => Err
   end.
 
-(* marshalDate (1354-1396): truncating division *)
-Definition date_of_millis (ts : Z) : bytes := enc_int (Z.quot ts K.millisecondsInADay + Z.shiftl 1 31).
+(* encDate: Go's truncating division corrected to floor, then the int32 range check *)
+Definition enc_date (ts : Z) : mres :=
+  let q := Z.quot ts K.millisecondsInADay in
+  let days := if Z.rem ts K.millisecondsInADay <? 0 then q - 1 else q in
+  if (days <? MinInt32) || (MaxInt32 <? days) then Err else some_bytes (enc_int (days + Z.shiftl 1 31)).
 Definition marshal_date (g : gval) : mres :=
   match g with
   | GUnset => Ok None | GNil => Ok None
-  | GInt I64 false v => some_bytes (date_of_millis v)
-  | GTime sec nsec => if time_is_zero sec nsec then some_bytes [] else some_bytes (date_of_millis (time_millis sec nsec))
+  | GInt I64 false v => enc_date v
+  | GTime sec nsec => if time_is_zero sec nsec then some_bytes [] else enc_date (time_millis sec nsec)
   | GStr false [] => some_bytes []
   | _ => Err
   end.
 
-(* marshalDuration (1426-1456): the reflect fallback writes 8 raw bytes *)
+(* marshalDuration: int64, time.Duration, gocql.Duration, and defined int64 types through reflect *)
 Definition marshal_duration (g : gval) : mres :=
   match g with
   | GUnset => Ok None | GNil => Ok None
-  | GInt I64 false v => some_bytes (enc_vints 0 0 v)
+  | GInt I64 _ v => some_bytes (enc_vints 0 0 v)
   | GDur ns => some_bytes (enc_vints 0 0 ns)
   | GCqlDur m d n => some_bytes (enc_vints m d n)
-  | GInt I64 true v => some_bytes (enc_bigint v)
   | _ => Err
   end.
 
@@ -651,7 +654,8 @@ Definition unmarshal_double (d : odata) (t : gty) : ures :=
 Definition unmarshal_decimal (d : odata) (t : gty) : ures :=
   match t with
   | YDec => let data := bytes_of d in
-            if (length data <? 4)%nat then Err
+            if (length data =? 0)%nat then Ok (GDec 0 0)
+            else if (length data <? 4)%nat then Err
             else Ok (GDec (dec_bigint2c (skipn 4 data)) (dec_int (firstn 4 data)))
   | _ => Err
   end.
@@ -679,14 +683,14 @@ Definition unmarshal_timestamp (d : odata) (t : gty) : ures :=
   | _ => Err
   end.
 
-(* binary.BigEndian.Uint32 panics on fewer than 4 bytes and ignores the rest *)
+(* one to three bytes are an error; bytes after the fourth are ignored *)
 Definition unmarshal_date (d : odata) (t : gty) : ures :=
   match t with
   | YTime =>
       let data := bytes_of d in
       match data with
       | [] => Ok (GTime zero_time_sec 0)
-      | _ => if (length data <? 4)%nat then Panic
+      | _ => if (length data <? 4)%nat then Err
              else let cur := be_val (firstn 4 data) in
                   let ts := signed 64 ((cur - Z.shiftl 1 31) * K.millisecondsInADay) in
                   (* time.UnixMilli *)
@@ -696,7 +700,7 @@ Definition unmarshal_date (d : odata) (t : gty) : ures :=
       let data := bytes_of d in
       match data with
       | [] => Ok (GStr false [])
-      | _ => if (length data <? 4)%nat then Panic
+      | _ => if (length data <? 4)%nat then Err
              else let cur := be_val (firstn 4 data) in
                   let ts := signed 64 ((cur - Z.shiftl 1 31) * K.millisecondsInADay) in
                   Ok (GStr false (date_string (ts / K.millisecondsInADay)))
@@ -726,6 +730,7 @@ Definition unmarshal_uuid (d : odata) (t : gty) : ures :=
           | YStr false => Ok (GStr false [])
           | YBytes false => Ok (GBytes false None)
           | YUUID => Ok (GUUID zeros16)
+          | YArr16 => Ok (GArr16 zeros16)
           | _ => Err
           end
   | _ => if negb (length data =? 16)%nat then Err
@@ -742,7 +747,8 @@ Definition unmarshal_timeuuid (d : odata) (t : gty) : ures :=
   match t with
   | YTime =>
       let data := bytes_of d in
-      if negb (length data =? 16)%nat then Err
+      if (length data =? 0)%nat then Ok (GTime zero_time_sec 0)
+      else if negb (length data =? 16)%nat then Err
       else match C19.Model.to_time data with
            | Some (s, n) => Ok (GTime s n)
            | None => Err                          (* version <> 1 *)
@@ -753,7 +759,8 @@ Definition unmarshal_timeuuid (d : odata) (t : gty) : ures :=
 Definition unmarshal_inet (d : odata) (t : gty) : ures :=
   let data := bytes_of d in
   match t with
-  | YIP => if (length data =? 4)%nat || (length data =? 16)%nat
+  | YIP => if (length data =? 0)%nat then Ok (GIP [])
+           else if (length data =? 4)%nat || (length data =? 16)%nat
            then match ip_to4 data with Some v4 => Ok (GIP v4) | None => Ok (GIP data) end
            else Err
   | YStr false =>
@@ -864,12 +871,16 @@ Definition marshal_map (pv : Z) (fk fv : gval -> mres) (g : gval) : mres :=
   | _ => Err
   end.
 
-(* marshalTuple (2003-2092): one component *)
+(* appendBytes (frame.go:1943) *)
+Definition append_bytes (d : option bytes) : bytes :=
+  match d with None => enc_int (-1) | Some b => enc_int (blen b) ++ b end.
+
+(* marshalTuple: one component; a component that Marshal turns into nil is written as null too *)
 Definition tuple_elem (iface : bool) (f : gval -> mres) (x : gval) : res bytes :=
   let null := if iface then match x with GNil => true | _ => false end
               else match x with GPtr None => true | _ => false end in
   if null then Ok (enc_int (-1))
-  else rbind (f x) (fun data => let b := bytes_of data in Ok (enc_int (blen b) ++ b)).
+  else rbind (f x) (fun data => Ok (append_bytes data)).
 
 Fixpoint tuple_items (iface : bool) (fs : list (gval -> mres)) (vs : list gval) : res bytes :=
   match fs, vs with
@@ -885,13 +896,9 @@ Definition marshal_tuple (fs : list (gval -> mres)) (g : gval) : mres :=
   | GStruct fields => go false (map snd fields)
   | GSlice (Some l) => go false l
   | GArray l => go false l
-  | GNil => Panic            (* reflect.ValueOf(nil).Type() *)
+  | GNil => Ok None          (* value == nil *)
   | _ => Err
   end.
-
-(* appendBytes (frame.go:1943) *)
-Definition append_bytes (d : option bytes) : bytes :=
-  match d with None => enc_int (-1) | Some b => enc_int (blen b) ++ b end.
 
 Fixpoint assoc {A} (name : bytes) (l : list (bytes * A)) : option A :=
   match l with
@@ -946,7 +953,11 @@ Fixpoint marshal (pv : Z) (ty : cqlty) (g : gval) {struct ty} : mres :=
   end.
 
 (* ---- Unmarshal ----------------------------------------------------------------------------------- *)
-(* goType (helpers.go:43-103) *)
+(* reflect.Type.Comparable for the types goType produces *)
+Definition comparable (t : gty) : bool :=
+  match t with YBytes _ | YSlice _ | YMap _ _ | YStrMap | YIfaces _ => false | _ => true end.
+
+(* goType (helpers.go) *)
 Fixpoint gotype (ty : cqlty) : option gty :=
   match ty with
   | TNative id =>
@@ -968,7 +979,10 @@ Fixpoint gotype (ty : cqlty) : option gty :=
       else if id =? K.TypeDuration then Some YCqlDur
       else None
   | TList e | TSet e => option_map YSlice (gotype e)
-  | TMap k v => match gotype k, gotype v with Some a, Some b => Some (YMap a b) | _, _ => None end
+  | TMap k v => match gotype k, gotype v with
+               | Some a, Some b => if comparable a then Some (YMap a b) else None   (* reflect.Type.Comparable of the key *)
+               | _, _ => None
+               end
   | TTuple _ => Some (YSlice YIface)
   | TUdt _ => Some YStrMap
   end.
@@ -1102,12 +1116,13 @@ Fixpoint map_loop (fuel : nat) (pv : Z) (fk fv : odata -> ures) (n : Z) (data : 
                  map_loop fu pv fk fv (n - 1) (snd vr) (map_insert k v acc)))))
        end.
 
-(* readBytes (2094-2102), called only when at least 4 bytes remain: slicing past the end panics *)
+(* readBytes, called only when at least 4 bytes remain: a component longer than the bytes left is an
+   UnmarshalError *)
 Definition read_bytes (data : bytes) : res (odata * bytes) :=
   let size := dec_int (firstn 4 data) in
   let p := skipn 4 data in
   if size <? 0 then Ok (None, p)
-  else if blen p <? size then Panic
+  else if blen p <? size then Err
   else Ok (Some (firstn (Z.to_nat size) p), skipn (Z.to_nat size) p).
 
 (* the tuple readers take a component only when 4 bytes remain, otherwise the component is nil *)
@@ -1237,7 +1252,10 @@ Definition unmarshal_udt (fs : list (bytes * option gty * (odata -> gty -> ures)
   | _ => Err
   end.
 
-(* unmarshalList (1650-1710), unmarshalMap (1775-1846) *)
+(* width of a collection size field: the second result of readCollectionSize *)
+Definition size_width (pv : Z) : Z := if K.protoVersion2 <? pv then 4 else 2.
+
+(* unmarshalList, unmarshalMap *)
 Definition unmarshal_list (pv : Z) (f : odata -> gty -> ures) (d : odata) (t : gty) : ures :=
   let elem et := fun ed => ptr_wrap et ed (f ed) in
   match t with
@@ -1246,7 +1264,8 @@ Definition unmarshal_list (pv : Z) (f : odata -> gty -> ures) (d : odata) (t : g
       | None => Ok (GSlice None)
       | Some data =>
           rbind (read_size pv data) (fun nr =>
-            if fst nr <? 0 then Panic     (* reflect.MakeSlice: negative len *)
+            if fst nr <? 0 then Err                               (* negative list size *)
+            else if blen (snd nr) / size_width pv <? fst nr then Err    (* more elements than size fields fit *)
             else rmap (fun vs => GSlice (Some vs)) (list_loop (S (length data)) pv (elem et) (fst nr) (snd nr)))
       end
   | YArray k et =>
@@ -1254,7 +1273,9 @@ Definition unmarshal_list (pv : Z) (f : odata -> gty -> ures) (d : odata) (t : g
       | None => Err
       | Some data =>
           rbind (read_size pv data) (fun nr =>
-            if negb (Z.of_nat k =? fst nr) then Err
+            if fst nr <? 0 then Err
+            else if blen (snd nr) / size_width pv <? fst nr then Err
+            else if negb (Z.of_nat k =? fst nr) then Err
             else rmap GArray (list_loop (S (length data)) pv (elem et) (fst nr) (snd nr)))
       end
   | _ => Err
